@@ -909,13 +909,22 @@ theorem view_inv {s : State} (hs : Inv s) (p : Nat) (rows : List Nat) :
 
 /-! ### Attaching another position: `setOther` -/
 
-theorem setOther_inv {s : State} (hs : Inv s) (p : Nat) (q : Option Nat) :
-    (step ⟨true, true⟩ s (.setOther p q)).2 = (refStep s (.setOther p q)).2 ∧ Inv (step ⟨true, true⟩ s (.setOther p q)).1 := by
-  refine ⟨rfl, ?_⟩
+/-- dropping caches (of any set of objects) keeps the invariant -/
+theorem inv_clearCaches {s : State} (hs : Inv s) (ids : List Nat) : Inv { s with objs := clearCaches s.objs ids } := by
+  refine inv_cache_update hs rfl (sameShape_clearCaches s.objs ids) ?_
+  intro i o o' ho ho'
+  rw [getElem?_clearCaches] at ho'
+  simp only [ho, Option.map_some, Option.some.injEq] at ho'
+  subst ho'
+  by_cases h : i ∈ ids
+  · simp [h, CacheStep]
+  · simp [h, CacheStep]
+
+theorem setOtherCore_inv {s : State} (hs : Inv s) (p : Nat) (q : Option Nat) : Inv (setOtherCore s p q).1 := by
   cases hp : s.objs[p]? with
-  | none => simp only [step, hp]; exact hs
+  | none => simp only [setOtherCore, hp]; exact hs
   | some po =>
-    simp only [step, hp]
+    simp only [setOtherCore, hp]
     split_ifs with hguard
     · exact hs
     · have hplt : p < s.objs.length := by
@@ -1091,5 +1100,16 @@ theorem setOther_inv {s : State} (hs : Inv s) (p : Nat) (q : Option Nat) :
           rcases List.mem_append.mp h1 with h | h
           · rw [hv]; exact List.mem_append_left _ h
           · exact List.mem_append_right _ (hkeep p' h hpp)
+
+theorem setOther_inv {s : State} (hs : Inv s) (p : Nat) (q : Option Nat) :
+    (step ⟨true, true⟩ s (.setOther p q)).2 = (refStep s (.setOther p q)).2 ∧ Inv (step ⟨true, true⟩ s (.setOther p q)).1 := by
+  refine ⟨rfl, ?_⟩
+  cases hp : s.objs[p]? with
+  | none => simp only [step, hp]; exact hs
+  | some po =>
+    simp only [step, hp]
+    split
+    · exact setOtherCore_inv (inv_clearCaches hs _) p q
+    · exact setOtherCore_inv hs p q
 
 end Midgard.ObjCache
